@@ -456,6 +456,10 @@ def version_gate_rule(ctx, mpq, pid, scope):
 
     def gate(c):
         c = hirq.strip(c)
+        if c.get("k") == "un" and c.get("op") == "Not":
+            # `!(version < V3)` admits the complement
+            inner = gate(c["e"])
+            return frozenset(v for v in (1, 2, 3, 4) if v not in inner) if inner is not None else None
         if c.get("k") != "bin" or c["op"] not in ("<", "<=", ">", ">=", "==", "!="):
             return None
         l, r = hirq.strip(c["l"]), hirq.strip(c["r"])
